@@ -721,6 +721,24 @@ def flag_q_x_section(chk, rng, quick, g):
         if want != 'any' and got != want:
             chk.violation('impl-vs-spec', {'pattern': pat, 'subject': subj, 'flags': 'x'}, {'fn:matches': got, 'F&O': want})
         chk.nontrivial.add('x:' + pat + '~' + subj)
+    # fn:tokenize with one argument = tokenize(normalize-space($s), ' '): the separators are #x9 #xA #xD #x20 and nothing else;
+    # fn:contains-token($s, $t) = the trimmed $t is one of these tokens
+    WSA = ['a', 'b', 'ab', ' ', '  ', '\t', '\n', '\r', '\x0c', '\x0b', '\xa0', '\u3000', '\u2003', '\x85']
+    for _ in range(80 if quick else 3000):
+        subj = ''.join(rng.choice(WSA) for _ in range(rng.randint(0, 6)))
+        chk.evaluations += 1
+        chk.count('tokenize/1 and contains-token')
+        want = [t for t in re.split('[ \t\n\r]+', subj) if t]
+        got = ev('tokenize($s)', s=subj)
+        if got != want:
+            chk.violation('impl-vs-spec', {'expr': 'tokenize($s)', 's': ascii(subj)}, {'impl': ascii(got), 'split at XML white space': ascii(want)})
+        tok = rng.choice(want + ['a', 'b', '\x0c']) if rng.random() < 0.8 or not want else rng.choice(WSA)
+        padded = rng.choice(['', ' ', '\t']) + tok + rng.choice(['', ' ', '\r\n'])
+        wantc = tok.strip(' \t\n\r') in want
+        gotc = ev('contains-token($s, $t)', s=subj, t=padded)
+        if gotc != wantc:
+            chk.violation('impl-vs-spec', {'expr': 'contains-token($s, $t)', 's': ascii(subj), 't': ascii(padded)}, {'impl': gotc, 'token of tokenize($s)': wantc})
+        chk.nontrivial.add('tok1:' + subj + '~' + padded)
     for _ in range(40 if quick else 1500):
         e = g.rx(rng.choice([1, 1, 2]))
         text = rx_text(e)
